@@ -99,7 +99,7 @@ func judge(id int, o outcome) (res result) {
 	})
 	fail := func(i int, kind, d string) result {
 		res.Status, res.Owner, res.Mismatch = "violation", "C12", &mismatch{Step: i, Kind: kind, Detail: d}
-		s.Disable()
+		s.Finish()
 		return res
 	}
 	for i, name := range o.Sched {
@@ -111,7 +111,7 @@ func judge(id int, o outcome) (res result) {
 		}
 		if err := s.Step(a); err != nil {
 			res.Status, res.Error = "error", err.Error()
-			s.Disable()
+			s.Finish()
 			return res
 		}
 		if len(s.Panics) > 0 {
@@ -137,7 +137,7 @@ func judge(id int, o outcome) (res result) {
 		bl := s.BlockedActors()
 		return fail(len(o.Sched), "stuck", fmt.Sprintf("Close never returns: every actor is blocked (%v); %s", bl, detail))
 	}
-	s.Disable()
+	s.Finish()
 	if closed && closeErr == nil && !bytes.Equal(taken, all) {
 		return fail(len(o.Sched), "content", fmt.Sprintf("Close returned nil but the storing side got %d of %d bytes (%v vs %v); %s", len(taken), len(all), taken, all, detail))
 	}
